@@ -62,5 +62,5 @@ func runContracts(c *Ctx, cs *vc.Contracts, opt vc.Options, so *vc.SolveOpts) in
 }
 
 func defaultSolve() *vc.SolveOpts {
-	return &vc.SolveOpts{TimeoutMs: 5000, RaceTimeout: 20 * time.Second, Models: true}
+	return &vc.SolveOpts{TimeoutMs: 5000, RaceTimeout: 8 * time.Second, Models: true}
 }
